@@ -54,6 +54,7 @@ type App struct {
 	R         *Recorder
 	Who       string
 	FromAppFn func(m *quickfix.Message) quickfix.MessageRejectError
+	ToAdminFn func(m *quickfix.Message)
 	Logons    int64
 }
 
@@ -70,7 +71,12 @@ func (a *App) rec(kind string, m *quickfix.Message) {
 func (a *App) OnCreate(quickfix.SessionID)                       {}
 func (a *App) OnLogon(quickfix.SessionID)                        { atomic.AddInt64(&a.Logons, 1); a.rec("OnLogon", nil) }
 func (a *App) OnLogout(quickfix.SessionID)                       { a.rec("OnLogout", nil) }
-func (a *App) ToAdmin(m *quickfix.Message, _ quickfix.SessionID) { a.rec("ToAdmin", m) }
+func (a *App) ToAdmin(m *quickfix.Message, _ quickfix.SessionID) {
+	a.rec("ToAdmin", m)
+	if a.ToAdminFn != nil {
+		a.ToAdminFn(m)
+	}
+}
 func (a *App) ToApp(m *quickfix.Message, _ quickfix.SessionID) error {
 	a.rec("ToApp", m)
 	return nil
@@ -181,6 +187,7 @@ type Options struct {
 	Extra     map[string]string
 	R         *Recorder
 	Delay     func(op string)
+	ToAdmin   func(m *quickfix.Message) // runs inside the engine's ToAdmin callback (user code: may take time)
 }
 
 // Engine is a running Acceptor or Initiator with one session.
@@ -221,7 +228,7 @@ func settingsText(o Options, initiator bool) string {
 
 func start(o Options, initiator bool) (*Engine, error) {
 	e := &Engine{Opt: o, SID: quickfix.SessionID{BeginString: o.Begin, SenderCompID: o.Sender, TargetCompID: o.Target}}
-	e.App = &App{R: o.R, Who: o.Who}
+	e.App = &App{R: o.R, Who: o.Who, ToAdminFn: o.ToAdmin}
 	text := settingsText(o, initiator)
 	st, err := quickfix.ParseSettings(strings.NewReader(text))
 	if err != nil {
